@@ -3742,6 +3742,18 @@ class RockRidgeContinuationBlock:
 
         return offset
 
+    def is_empty(self):
+        # type: () -> bool
+        """
+        Determine whether this block holds any entries.
+
+        Parameters:
+         None.
+        Returns:
+         True if there are no entries in this block, False otherwise.
+        """
+        return not self._entries
+
     def remove_entry(self, offset, length):
         # type: (int, int) -> None
         """
